@@ -1,6 +1,12 @@
 package keeper
 
 import (
+	"encoding/hex"
+	"math/big"
+	"time"
+
+	sdk "github.com/cosmos/cosmos-sdk/types"
+
 	"mods.irisnet.org/modules/htlc/types"
 )
 
@@ -38,4 +44,66 @@ func VerifC16_UpdateParams() {
 	verifCover("stored")
 	verifAssert(rightAuthority, "only the configured authority changes params")
 	verifAssert(!vPanicked && vErr == nil, "a parameter set rejected by validation is never stored")
+}
+
+// C16 consumers: under ANY accepted parameter set - in particular supply limits that the authority has
+// lowered below what already circulates or is in flight - every message of the module and the begin-block
+// handler end in success or an ordinary rejection, never in an abort.
+func VerifC16_Consumers() {
+	verifExpect("done", "rejected")
+	e := newHEnvLimits(false)
+	sh := hChooseShape()
+	one, w := big.NewInt(1), verifPow2(64)
+	amt := verifIntIn("amt", one, w)
+	denom := hOther
+	sender, to := e.user, e.other
+	if sh.transfer {
+		denom = hDenom
+		if sh.dir == types.Incoming {
+			sender, to = e.deputy, e.user
+		} else {
+			sender, to = e.user, e.deputy
+		}
+	}
+	amount := sdk.NewCoins(sdk.Coin{Denom: denom, Amount: amt})
+	e.bank.fund(sender, denom, verifIntIn("wallet", big.NewInt(0), verifPow2(66)))
+	e.bank.fund(vModuleAddr(types.ModuleName), denom, verifIntIn("escrow", big.NewInt(0), verifPow2(66)))
+	ts := uint64(1700000000)
+	ctx := e.ctx.WithBlockTime(time.Unix(1700000000, 0))
+	lock := types.GetHashLock(hSecretGood, ts)
+	srv := NewMsgServerImpl(e.k)
+	var err error
+	var panicked bool
+	var what string
+	switch verifChoice("op", 4) {
+	case 0:
+		msg := &types.MsgCreateHTLC{Sender: sender.String(), To: to.String(), ReceiverOnOtherChain: "r", SenderOnOtherChain: "s",
+			Amount: amount, HashLock: hex.EncodeToString(lock), Timestamp: ts, TimeLock: types.MinTimeLock + 5, Transfer: sh.transfer}
+		verifAssume(msg.ValidateBasic() == nil)
+		err, panicked = e.verifDeliver(func() error { _, err := srv.CreateHTLC(ctx, msg); return err })
+	case 1:
+		id := hID(1)
+		e.putHTLC(id, types.Open, sh.transfer, sh.dir, amount, ts, uint64(hHeight)+10, true)
+		msg := &types.MsgClaimHTLC{Sender: e.other.String(), Id: id.String(), Secret: hSecretGood.String()}
+		verifAssume(msg.ValidateBasic() == nil)
+		err, panicked = e.verifDeliver(func() error { _, err := srv.ClaimHTLC(ctx, msg); return err })
+	case 2:
+		id := hID(1)
+		h := e.putHTLC(id, types.Open, sh.transfer, sh.dir, amount, ts, uint64(hHeight), true)
+		panicked, what = verifCatch(func() { err = e.k.RefundHTLC(ctx, h, id) })
+	case 3:
+		panicked, what = verifCatch(func() { e.k.UpdateTimeBasedSupplyLimits(ctx) })
+	}
+	if panicked && err != nil {
+		what = err.Error()
+	}
+	if panicked {
+		verifPrint(what)
+	}
+	verifAssert(!panicked, "no accepted parameter set makes a handler abort")
+	if err != nil {
+		verifCover("rejected")
+	} else {
+		verifCover("done")
+	}
 }
